@@ -112,6 +112,12 @@ def search(model, b):
                     f["ops"] = ["cfg proto 0", "prt %s x%s" % (fq, (varint(hit["tag"] * 8) + varint(vals[0][1])).hex())]
                     break
             out.append(f)
+    for x in model.get("stats", {}).get("explicit_defaults", []):
+        f = {"kind": "schema", "ops": [], "row": x,
+             "what": "field %s.%s carries the explicit default %r: the value is omitted on the wire and assumed when the field is absent" % (x["message"], x["field"], x["default"])}
+        if x.get("tag") and x["default"].isdigit() and int(x["default"]) > 0:
+            f["ops"] = ["cfg proto 0", "prt %s x%s" % (x["message"], (varint(x["tag"] * 8) + varint(int(x["default"]))).hex())]
+        out.append(f)
     # run the witnesses on the real bindings
     for f in out:
         if f["ops"] and b is not None and "miniwasm" in b.exe:
